@@ -27,6 +27,9 @@ TxtDefects(v, r) ==
             [op |-> "toktxt", i |-> i, s |-> s \o "{*}[99999999999999999999]\n \"x_1\"\n"],   \* overlong state tag
             [op |-> "toktxt", i |-> i, s |-> s \o "{*}[-2]\n \"x_1\"\n"],                      \* negative state tag
             [op |-> "toktxt", i |-> i, s |-> s \o "{*}[2]\n \"x_99999999999999999999\"\n"],    \* overlong pdf id
+            [op |-> "toktxt", i |-> i, s |-> s \o "{*}[2]\n \"x_999999999999999999999999\"\n"],  \* 24-digit pdf id
+            [op |-> "toktxt", i |-> i, s |-> s \o "{*}[2]\n \"x_000000000000000000000000000001\"\n"],  \* 30 digits, value 1
+            [op |-> "toktxt", i |-> i, s |-> s \o "{*}[2]\n{\n 0 " \o QuestionTable[1].name \o " -999999999999999999999999 \"x_1\" \n}\n"], \* 24-digit node id
             [op |-> "toktxt", i |-> i, s |-> s \o "{*}[2]\n \"x_0\"\n"],                       \* pdf id 0 (1-based index)
             [op |-> "toktxt", i |-> i, s |-> s \o "{*}[2]\n \"x_7\"\n"],                       \* pdf id beyond the block
             [op |-> "toktxt", i |-> i, s |-> s \o "{*}[9]\n{\n}\n"],                              \* a tree with an empty body
@@ -57,15 +60,17 @@ TreeDefectTexts(m, pre, quoted) ==
         "QS " \o q1 \o " { \"*\" }\n\n" \o "{*}[" \o st \o "]\n{\n 0 " \o q1 \o " \"x_q\" \"x_1\" \n}\n" \o others,   \* leaf name without digits
         "QS " \o q1 \o " { \"*\" }\n\n" \o "{*}[" \o st \o "]\n{\n 0 " \o q1 \o " \"x_0\" \"x_9\" \n}\n" \o others,   \* pdf ids 0 and beyond the block
         "QS " \o q1 \o " { \"*\" }\nQS " \o q1 \o " { \"?\" }\n\n" \o "{*}[" \o st \o "]\n \"x_1\"\n" \o others,       \* duplicate question name
+        first("{*}[" \o st \o "]\n \"x_999999999999999999999999\"\n"),                       \* 24-digit pdf id
+        first("{*}[" \o st \o "]\n \"x_000000000000000000000000000001\"\n"),                 \* 30 digits, value 1 (a legal spelling)
         first("{*}[99]\n \"x_1\"\n"),                                                        \* a state tag no state uses
         first("{*}[" \o st \o "]\n{\n 0 " \o (IF Len(m.qs) > 0 THEN m.qs[1].name ELSE "Q") \o " 0 0 \n}\n") >>   \* a node that refers to itself
 DocDefects(v) ==
-  {[op |-> "doc", voice |-> Render([v EXCEPT !.dur = WithRaw(v.dur, TreeDefectTexts(v.dur, "dur_", v.quoted)[d])])] : d \in 1..10}
+  {[op |-> "doc", voice |-> Render([v EXCEPT !.dur = WithRaw(v.dur, TreeDefectTexts(v.dur, "dur_", v.quoted)[d])])] : d \in 1..12}
   \cup UNION { {[op |-> "doc", voice |-> Render([v EXCEPT !.streams[s].model =
-                     WithRaw(v.streams[s].model, TreeDefectTexts(v.streams[s].model, v.streams[s].pre, v.quoted)[d])])] : d \in 1..10}
+                     WithRaw(v.streams[s].model, TreeDefectTexts(v.streams[s].model, v.streams[s].pre, v.quoted)[d])])] : d \in 1..12}
               : s \in 1..Len(v.streams) }
   \cup UNION { {[op |-> "doc", voice |-> Render([v EXCEPT !.streams[s].gv =
-                     WithRaw(v.streams[s].gv, TreeDefectTexts(v.streams[s].gv, "gv_" \o v.streams[s].pre, v.quoted)[d])])] : d \in 1..10}
+                     WithRaw(v.streams[s].gv, TreeDefectTexts(v.streams[s].gv, "gv_" \o v.streams[s].pre, v.quoted)[d])])] : d \in 1..12}
               : s \in {s \in 1..Len(v.streams) : v.streams[s].usegv} }
 
 DocBase(k) == LET v == Doc(DocFams[k])  r == Render(v)  bs == Blobs(v)  lay == Layout(bs, 0)
